@@ -108,13 +108,24 @@ pub fn run(r: &Req) -> Option<String> {
             let o: OC = view.vrank::<OC, U>(pct, rev);
             crate::proto::toks_iter(o.titer())
         }))),
+        // the partition iterators announce a trusted length: write them into an instrumented buffer of
+        // exactly that length through the library's own `write_trust_iter` (every slot must be written
+        // once; an iterator that runs dry makes the writer panic, which is not an `ok` outcome)
         "varg_partition" => Some(on_input!(view, _v2 => observed!(false, {
-            let o: Vec<i32> = view.varg_partition(kth, sort, rev).collect();
-            crate::proto::toks(&o)
+            let it = view.varg_partition(kth, sort, rev);
+            let n = it.len();
+            let mut buf = <LogOut<i32> as Vec1<i32>>::uninit(n);
+            { let mut r = <LogOut<i32> as Vec1<i32>>::uninit_ref_mut(&mut buf); it.write(&mut r).unwrap(); }
+            let o: LogOut<i32> = unsafe { buf.assume_init() };
+            crate::proto::toks_iter(o.titer())
         }))),
         "vpartition" => Some(on_input!(view, _v2 => observed!(false, {
-            let o: Vec<f64> = view.vpartition(kth, sort, rev).collect();
-            crate::proto::toks(&o)
+            let it = view.vpartition(kth, sort, rev);
+            let n = it.len();
+            let mut buf = <OC as Vec1<U>>::uninit(n);
+            { let mut r = <OC as Vec1<U>>::uninit_ref_mut(&mut buf); it.write(&mut r).unwrap(); }
+            let o: OC = unsafe { buf.assume_init() };
+            crate::proto::toks_iter(o.titer())
         }))),
         "vquantile" => Some(on_input!(view, _v2 => observed!(false, {
             let q = r.f64("q");
